@@ -15,6 +15,7 @@
 #include <amgcl/mpi/solver/runtime.hpp>
 #include <amgcl/mpi/direct_solver/runtime.hpp>
 #include <amgcl/mpi/partition/runtime.hpp>
+#include <set>
 #include "harness_main.hpp"
 
 const char *CHECK_ID = "C12";
@@ -92,6 +93,7 @@ Plan generate(uint64_t seed, uint64_t run, bool thorough) {
     p.set("late_send_read", r.range(0, 1), 0); p.set("recv_poison", r.range(0, 1), 0); p.set("rendezvous", r.range(0, 1), 0);
     p.set("fseed", (long)(r.next() >> 16), 0);
     p.set("nt", r.chance(0.7) ? 1 : 2, 1);
+    { static const long nsc[] = { 1, 1, 2, 2, 2, 2, 3 }; p.set("nullspace", r.chance(0.35) ? nsc[r.below(7)] : 0, 0); }      // near-null-space vectors handed to the distributed coarsening
     draw_schedule(r, p.sched, (int)p.get("R"));
     return p;
 }
@@ -102,12 +104,19 @@ Result execute(const Plan &p) {
     gen::Csr A = gen::make_matrix((int)p.get("family"), p.get("n"), (uint64_t)p.get("mseed"), (int)p.get("contrast"), 1);
     const long n = A.n;
     sim::rng pr((uint64_t)p.get("pseed"), "partition");
-    std::vector<long> rp = draw_partition(pr, n, R, p.get("allow_empty") != 0 || n < R);
+    // near-null-space vectors only with plain aggregation: there P is the tentative prolongation itself, so the aggregates (and the
+    // recorded small-aggregate finding) can be read off the recorded P; with smoothed aggregation they cannot
+    const long nscols = (n >= R && p.get("coarsening") == 0) ? p.get("nullspace", 0) : 0;
+    // (a rank without rows cannot describe its slice of the near-null-space vectors through the parameter tree: no empty ranks then)
+    std::vector<long> rp = draw_partition(pr, n, R, (p.get("allow_empty") != 0 && !nscols) || n < R);
+    std::vector<double> NB((size_t)n * std::max<long>(nscols, 1));
+    for (long i = 0; i < n; ++i) for (long k = 0; k < nscols; ++k) NB[(size_t)i * nscols + k] = k == 0 ? 1.0 : std::pow((double)(i + 1) / n, (double)k) + 0.25 * std::sin((double)(i * (k + 1)));
     std::vector<double> f = gen::make_vector(n, (uint64_t)p.get("vseed"), 0);
     long coarsening = p.get("coarsening"), relax = p.get("relax"), solver = p.get("solver");
+    std::string nsclass = "none";      // none | ok | deficient-aggregate (an aggregate with fewer points than near-null-space vectors)
     auto sig = [&](const char *oracle, const char *clause, const std::string &detail) {
         Violation v; v.oracle = oracle; v.add("component", "mpi::make_solver"); v.add("clause", clause); v.add("coarsening", coarsening_names[coarsening]); v.add("relax", relax_names[relax]); v.add("solver", solver_names[solver]);
-        v.add("ranks", R >= 2 ? "R>=2" : "R=1"); v.detail = detail; return v; };
+        v.add("ranks", R >= 2 ? "R>=2" : "R=1"); v.add("nullspace", nsclass); v.detail = detail; return v; };
     boost::property_tree::ptree prm;
     prm.put("precond.coarsening.type", coarsening_names[coarsening]);
     prm.put("precond.relax.type", relax_names[relax]);
@@ -115,7 +124,13 @@ Result execute(const Plan &p) {
     prm.put("precond.npre", p.get("npre")); prm.put("precond.npost", p.get("npre"));
     prm.put("precond.direct.type", "skyline_lu");
     prm.put("precond.repart.type", "merge");
-    prm.put("precond.repart.enable", p.get("repart") != 0); prm.put("precond.repart.min_per_proc", p.get("min_per_proc")); prm.put("precond.repart.shrink_ratio", p.get("shrink_ratio"));
+    // (near-null-space vectors + repartitioning is a recorded defect - the carried coarse vectors are not redistributed, the next
+    //  level reads them out of bounds: C12-nullspace-not-repartitioned - such worlds are only run from an explicit replay plan)
+    const bool repart_on = p.get("repart") != 0 && !(nscols > 0 && !p.get("force_nullspace_repart", 0));
+    prm.put("precond.repart.enable", repart_on); prm.put("precond.repart.min_per_proc", p.get("min_per_proc")); prm.put("precond.repart.shrink_ratio", p.get("shrink_ratio"));
+    // (with near-null-space vectors an aggregate of <= c points yields c coarse unknowns: the level sizes need not decrease and
+    //  mpi::amg has no other stop than coarse_enough / max_levels - bound the depth so that such a world costs seconds, not minutes)
+    if (nscols > 0) prm.put("precond.max_levels", 2 + (p.get("vseed") & 1));
     prm.put("solver.type", solver_names[solver]); prm.put("solver.maxiter", 200);
     std::vector<double> x(n, 0.0); std::vector<double> iters(R, -1), resid(R, -1);
     bool any_empty = false; for (int r = 0; r < R; ++r) if (rp[r+1] == rp[r]) any_empty = true;
@@ -128,20 +143,30 @@ Result execute(const Plan &p) {
         gen::Csr S; S.n = r1 - r0; S.m = n; S.ptr.push_back(0);
         for (long i = r0; i < r1; ++i) { for (ptrdiff_t j = A.ptr[i]; j < A.ptr[i+1]; ++j) { S.col.push_back(A.col[j]); S.val.push_back(A.val[j]); } S.ptr.push_back((ptrdiff_t)S.col.size()); }
         auto dA = std::make_shared<DM>(comm, std::make_tuple((size_t)S.n, std::ref(S.ptr), std::ref(S.col), std::ref(S.val)));
-        Solver solve(comm, dA, prm);
+        boost::property_tree::ptree lprm = prm;
+        if (nscols > 0) { lprm.put("precond.coarsening.aggr.nullspace.cols", nscols); lprm.put("precond.coarsening.aggr.nullspace.rows", r1 - r0); lprm.put("precond.coarsening.aggr.nullspace.B", &NB[(size_t)r0 * nscols]); }
+        Solver solve(comm, dA, lprm);
         std::vector<double> fl(f.begin() + r0, f.begin() + r1), xl(r1 - r0, 0.0);
         size_t it; double rs; std::tie(it, rs) = solve(fl, xl);
         iters[rank] = (double)it; resid[rank] = rs;
         for (long i = r0; i < r1; ++i) x[i] = xl[i - r0];
     });
     res.absorb(out.sched); res.deviations = out.sched.deviations;
+    if (getenv("C12_DEBUG")) for (size_t l = 0; l < g_levels.size(); ++l) { const LevelRec &L = g_levels[l]; std::map<long, std::set<long> > mem; for (Entries::const_iterator q = L.P.begin(); q != L.P.end(); ++q) mem[q->first.second / std::max<long>(nscols, 1)].insert(q->first.first);
+        std::map<size_t,int> hist; for (auto &m : mem) hist[m.second.size()]++; fprintf(stderr, "level %zu: nA=%ld nC=%ld calls=%d aggregates=%zu sizes:", l, L.nA, L.nC, L.calls, mem.size()); for (auto &h : hist) fprintf(stderr, " %zux%d", h.first, h.second); fprintf(stderr, "\n"); }
+    if (nscols > 0) {
+        nsclass = "ok";
+        for (size_t l = 0; l < g_levels.size(); ++l) if (g_levels[l].calls == R) { std::map<long, std::set<long> > members; for (Entries::const_iterator q = g_levels[l].P.begin(); q != g_levels[l].P.end(); ++q) members[q->first.second / nscols].insert(q->first.first);
+            for (auto &m : members) if ((long)m.second.size() < nscols) nsclass = "deficient-aggregate"; }
+        if (nsclass != "ok") res.counts["nullspace_worlds_with_deficient_aggregate"]++; else res.counts["nullspace_worlds"]++;
+    }
     res.faults["late_send_read"] += out.stats.late_reads; res.faults["late_read_changed_payload"] += out.stats.late_read_changed_payload; res.faults["recv_poison"] += out.stats.recv_poisoned;
     res.faults["rendezvous_send"] += out.stats.rendezvous_sends; if (p.sched.strategy == sim::STARVE) res.faults["rank_stall"]++;
     res.counts["messages"] += out.stats.messages; res.counts["collectives"] += out.stats.collectives; res.counts["comm_splits"] += out.stats.comm_splits;
     if (any_empty) res.counts["empty_rank"]++;
-    if (p.get("repart")) res.counts["repartition_enabled"]++;
+    if (repart_on) res.counts["repartition_enabled"]++;
     bool threw = false;
-    if (out.sched.status == sim::ST_DEADLOCK) res.fail(sig("all-ranks-terminate", "deadlock", out.sched.blocked));
+    if (out.sched.status == sim::ST_DEADLOCK) { std::string ex; for (int r = 0; r < R; ++r) if (!out.rank_exception[r].empty()) ex += fmt("rank %d threw: %s; ", r, out.rank_exception[r].c_str()); res.fail(sig("all-ranks-terminate", "deadlock", out.sched.blocked + ex)); }
     else if (out.sched.status) res.fail(sig("all-ranks-terminate", "tick-budget", out.sched.blocked));
     else {
         for (int r = 0; r < R; ++r) if (!out.rank_exception[r].empty()) { threw = true; res.fail(sig("no-exception", "rank-threw", fmt("rank %d: %s", r, out.rank_exception[r].c_str()))); break; }
@@ -160,10 +185,11 @@ Result execute(const Plan &p) {
             }
             // (the stationary Richardson iteration must not diverge - its rate with block-local smoothers can be slow -, the Krylov methods must reach the tolerance)
             // ---- distributed coarsening structure (recorded through the policy seam), levels small enough for a dense model
+            std::vector<double> ns_cur; bool ns_ok = false;
             for (size_t l = 0; l < g_levels.size(); ++l) {
                 const LevelRec &L = g_levels[l];
                 if (L.calls != R) { res.fail(sig("coarsening-structure", "every-rank-coarsens-every-level", fmt("level %zu: %d of %d ranks called coarse_operator", l, L.calls, R))); break; }
-                if (L.nA > 260) continue;
+                if (L.nA > 260) { ns_ok = false; continue; }
                 res.counts["distributed_levels_checked"]++;
                 const long nA = L.nA, nC = L.nC;
                 // R is the transpose of P
@@ -184,13 +210,33 @@ Result execute(const Plan &p) {
                 std::vector<int> rowcnt(nA, 0), colcnt(nC, 0); bool unit = true;
                 for (Entries::const_iterator q = L.P.begin(); q != L.P.end(); ++q) { rowcnt[q->first.first]++; if (q->first.second < nC) colcnt[q->first.second]++; if (q->second != 1.0) unit = false; }
                 for (long i = 0; i < nA; ++i) if (strong[i] && rowcnt[i] == 0) { res.fail(sig("coarsening-structure", "non-isolated-unknown-in-an-aggregate", fmt("level %zu: unknown %ld of %ld has a strong neighbour but belongs to no aggregate (empty row of P)", l, i, nA))); break; }
-                if (coarsening == 0) {
+                if (coarsening == 0 && nscols > 0) {
+                    // near-null space reproduced across rank boundaries: every supplied vector lies in the range of the tentative
+                    // prolongation on the aggregated rows, P (P^T B) = B (the coarse vectors are P^T B when P has orthonormal columns,
+                    // which is what lets the chain continue to the next level)
+                    if (l == 0) { ns_cur = NB; ns_ok = true; }
+                    if (ns_ok && (long)ns_cur.size() == nA * nscols) {
+                        for (long i = 0; i < nA; ++i) if (rowcnt[i] != 0 && rowcnt[i] != nscols) { res.fail(sig("coarsening-structure", "nullspace-row-shape", fmt("level %zu: unknown %ld has %d entries in P, expected %ld", l, i, rowcnt[i], nscols))); break; }
+                        std::vector<long double> Bc((size_t)nC * nscols, 0.0L), PB((size_t)nA * nscols, 0.0L), G((size_t)nC * nC, 0.0L);
+                        for (Entries::const_iterator q = L.P.begin(); q != L.P.end(); ++q) if (q->first.second < nC) for (long k = 0; k < nscols; ++k) Bc[(size_t)q->first.second * nscols + k] += (long double)q->second * ns_cur[(size_t)q->first.first * nscols + k];
+                        for (Entries::const_iterator q = L.P.begin(); q != L.P.end(); ++q) if (q->first.second < nC) for (long k = 0; k < nscols; ++k) PB[(size_t)q->first.first * nscols + k] += (long double)q->second * Bc[(size_t)q->first.second * nscols + k];
+                        double worst = 0, sc = 0; long wi = -1; for (long i = 0; i < nA; ++i) if (rowcnt[i]) for (long k = 0; k < nscols; ++k) { double b = ns_cur[(size_t)i * nscols + k], d = std::fabs((double)PB[(size_t)i * nscols + k] - b); sc = std::max(sc, std::fabs(b)); if (d > worst) { worst = d; wi = i; } }
+                        // P^T P = I decides whether P^T B really is the coarse near-null space the library carries on
+                        bool ortho = true; { std::map<long, std::vector<std::pair<long,double> > > rows; for (Entries::const_iterator q = L.P.begin(); q != L.P.end(); ++q) rows[q->first.first].push_back(std::make_pair(q->first.second, q->second));
+                            for (auto &rw : rows) for (auto &a : rw.second) for (auto &b2 : rw.second) if (a.first < nC && b2.first < nC) G[(size_t)a.first * nC + b2.first] += (long double)a.second * b2.second;
+                            for (long a = 0; a < nC && ortho; ++a) for (long b2 = 0; b2 < nC; ++b2) if (std::fabs((double)G[(size_t)a * nC + b2] - (a == b2 ? 1.0 : 0.0)) > 1e-9) { ortho = false; break; } }
+                        if (ortho) { if (!(worst <= 1e-9 * (1 + sc))) res.fail(sig("coarsening-structure", "near-nullspace-reproduced", fmt("level %zu: P*(P^T*B) differs from B by %.3g at unknown %ld of %ld (%ld vectors, %d ranks)", l, worst, wi, nA, nscols, R)));
+                            res.counts["nullspace_levels_checked"]++; ns_cur.assign((size_t)nC * nscols, 0.0); for (size_t q = 0; q < ns_cur.size(); ++q) ns_cur[q] = (double)Bc[q]; }
+                        else { ns_ok = false; res.counts["nullspace_chain_stopped_nonorthonormal"]++; }
+                    } else ns_ok = false;
+                } else if (coarsening == 0) {
                     if (!unit) res.fail(sig("coarsening-structure", "constant-near-nullspace", fmt("level %zu: tentative prolongation has entries different from 1", l)));
                     for (long i = 0; i < nA; ++i) if (rowcnt[i] > 1) { res.fail(sig("coarsening-structure", "exactly-one-aggregate", fmt("level %zu: unknown %ld lies in %d aggregates", l, i, rowcnt[i]))); break; }
                 }
                 for (long c = 0; c < nC; ++c) if (colcnt[c] == 0) { res.fail(sig("coarsening-structure", "no-empty-aggregate", fmt("level %zu: coarse unknown %ld has no fine member", l, c))); break; }
             }
-            if (finite && (solver == 7 ? !(resid[0] < 1.0) : !(resid[0] < tol))) res.fail(sig("converges-on-spd", solver == 7 ? "richardson-converges" : "within-200-iterations", fmt("%.0f iterations, residual %.3g (n=%ld, %d ranks)", iters[0], resid[0], n, R)));
+            // (worlds with near-null-space vectors run on a hierarchy truncated by max_levels: no convergence promise there)
+            if (finite && nscols == 0 && (solver == 7 ? !(resid[0] < 1.0) : !(resid[0] < tol))) res.fail(sig("converges-on-spd", solver == 7 ? "richardson-converges" : "within-200-iterations", fmt("%.0f iterations, residual %.3g (n=%ld, %d ranks)", iters[0], resid[0], n, R)));
         }
     }
     res.nontrivial = R >= 2 && out.stats.messages >= 1;
@@ -201,7 +247,7 @@ Result execute(const Plan &p) {
     js::Value s = js::Value::object();
     s.set("ranks", R); s.set("family", gen::family_name((int)p.get("family"))); s.set("n", n); s.set("coarsening", coarsening_names[coarsening]); s.set("relax", relax_names[relax]); s.set("solver", solver_names[solver]);
     js::Value jp = js::Value::array(); for (int r = 0; r <= R; ++r) jp.push(rp[r]); s.set("row_partition", jp);
-    s.set("coarse_enough", p.get("coarse_enough")); s.set("repartition", p.get("repart")); s.set("late_send_read", (long)mc.late_send_read); s.set("recv_poison", (long)mc.recv_poison); s.set("rendezvous", (long)mc.rendezvous);
+    s.set("coarse_enough", p.get("coarse_enough")); s.set("nullspace_vectors", nscols); s.set("repartition", (long)repart_on); s.set("late_send_read", (long)mc.late_send_read); s.set("recv_poison", (long)mc.recv_poison); s.set("rendezvous", (long)mc.rendezvous);
     s.set("strategy", sim::strategy_name(p.sched.strategy)); s.set("messages", (unsigned long long)out.stats.messages); s.set("collectives", (unsigned long long)out.stats.collectives); s.set("iters", iters[0]); s.set("resid", resid[0]);
     res.sample = s;
     return res;
